@@ -62,6 +62,10 @@ def gen_stallwatch(r, tier):
             ops.append("w.poll")
         # the fan stalls: the harness plays the device (rpm 0 unless the register exceeds the threshold)
         ops.append("w.dev rpm=0")
+        if kind == "cmd" and r.chance(0.4):
+            # the fan's PWM read-out starts failing as well (its getPwm command exits non-zero): the RPM still has to be
+            # polled and the stall noticed (seed C10i: the measurement gave up before reading the RPM)
+            ops.append("w.dev pwmread=other:-1")
         budget = bound_polls(kind, n) + 2 * (hi - lo) + 20 + 2 * (hi - lo)
         if kind == "cmd":
             # every poll / cycle is a few real process executions; one poll notices, at most two cycles per raise
